@@ -415,3 +415,132 @@ Proof.
   intros m stdin [|a r]; unfold all_outs_fast, all_outs; [apply data_outs_fast_spec|].
   apply flat_map_ext. intros [|d]; [reflexivity | apply data_outs_fast_spec].
 Qed.
+
+(* ---- partial consumption: every consumer built from input sees the iterator as the list of its outputs --- *)
+Section Simulation.
+  Variables (I : Type) (inext : I -> option out * I) (abs : I -> list out).
+  Hypothesis ok : iter_ok I inext abs.
+
+  (* run on the list and run on the iterator: same result, and the rest of the list is the abstraction
+     of the iterator left behind *)
+  Definition sim {X} (r : X * I) (l : X * list out) : Prop := l = (fst r, abs (snd r)).
+
+  Lemma func_input_sim : forall i, sim (func_input I inext i) (func_input _ list_next (abs i)).
+  Proof.
+    intros i. unfold sim, func_input. pose proof (ok i) as H. destruct (inext i) as [[o|] i'].
+    - rewrite H. cbn. destruct o; reflexivity.
+    - destruct H as [H H']. rewrite H. cbn. now rewrite H'.
+  Qed.
+
+  Lemma take_loop_sim : forall brk k i vs,
+    sim (take_loop I inext brk k i vs) (take_loop _ list_next brk k (abs i) vs).
+  Proof.
+    induction k as [|k IH]; intros i vs; [reflexivity|]. cbn [take_loop].
+    pose proof (func_input_sim i) as F. unfold sim in F. rewrite F.
+    destruct (func_input I inext i) as [[v| |] i']; cbn [fst snd]; [apply IH | reflexivity | reflexivity].
+  Qed.
+
+  Lemma inputs_loop_sim : forall fuel i vs,
+    inputs_loop _ list_next fuel (abs i) vs
+    = option_map (fun r => (fst r, abs (snd r))) (inputs_loop I inext fuel i vs).
+  Proof.
+    induction fuel as [|f IH]; intros i vs; [reflexivity|]. cbn [inputs_loop].
+    pose proof (func_input_sim i) as F. unfold sim in F. rewrite F.
+    destruct (func_input I inext i) as [[v| |] i']; cbn [fst snd]; [apply IH | reflexivity | reflexivity].
+  Qed.
+
+  Lemma until_loop_sim : forall fuel i,
+    until_loop _ list_next fuel (abs i)
+    = option_map (fun r => (fst r, abs (snd r))) (until_loop I inext fuel i).
+  Proof.
+    induction fuel as [|f IH]; intros i; [reflexivity|]. cbn [until_loop].
+    pose proof (func_input_sim i) as F. unfold sim in F. rewrite F.
+    destruct (func_input I inext i) as [[[[]| |]| |] i']; cbn [fst snd]; try reflexivity. apply IH.
+  Qed.
+
+  Lemma run_stage_sim : forall fuel st i,
+    sim (run_stage I inext fuel st i) (run_stage _ list_next fuel st (abs i)).
+  Proof.
+    intros fuel st i. unfold sim. destruct st; cbn [run_stage].
+    - pose proof (take_loop_sim false k i []) as T. unfold sim in T. rewrite T.
+      destruct (take_loop I inext false k i []); reflexivity.
+    - rewrite inputs_loop_sim. destruct (inputs_loop I inext fuel i []) as [[[vs|] i']|]; reflexivity.
+    - pose proof (func_input_sim i) as F. unfold sim in F. rewrite F.
+      destruct (func_input I inext i) as [[v| |] i']; reflexivity.
+    - pose proof (take_loop_sim true k i []) as T. unfold sim in T. rewrite T.
+      destruct (take_loop I inext true k i []); reflexivity.
+    - pose proof (func_input_sim i) as F. unfold sim in F. rewrite F.
+      destruct (func_input I inext i) as [[v| |] i']; reflexivity.
+    - pose proof (func_input_sim i) as F. unfold sim in F. rewrite F.
+      destruct (func_input I inext i) as [[v| |] i']; reflexivity.
+    - pose proof (take_loop_sim false k i []) as T. unfold sim in T. rewrite T.
+      destruct (take_loop I inext false k i []); reflexivity.
+    - pose proof (take_loop_sim false k i []) as T. unfold sim in T. rewrite T.
+      destruct (take_loop I inext false k i []); reflexivity.
+    - pose proof (func_input_sim i) as F. unfold sim in F. rewrite F.
+      destruct (func_input I inext i) as [[a| |] i']; cbn [fst snd] in *; try reflexivity.
+      rewrite inputs_loop_sim. destruct (inputs_loop I inext fuel i' []) as [[[vs|] i'']|]; reflexivity.
+    - rewrite until_loop_sim. destruct (until_loop I inext fuel i) as [[[v|] i']|]; reflexivity.
+  Qed.
+
+  Lemma run_prog_sim : forall fuel sts i,
+    sim (run_prog I inext fuel sts i) (run_prog _ list_next fuel sts (abs i)).
+  Proof.
+    induction sts as [|st r IH]; intros i; [reflexivity|].
+    unfold sim. cbn [run_prog]. pose proof (run_stage_sim fuel st i) as S. unfold sim in S. rewrite S.
+    destruct (run_stage I inext fuel st i) as [[vs|] i']; cbn [fst snd] in *; [|reflexivity].
+    specialize (IH i'). unfold sim in IH. rewrite IH.
+    destruct (run_prog I inext fuel r i'); reflexivity.
+  Qed.
+End Simulation.
+
+Lemma partial_consumption_lemma : forall m stdin args fuel sts,
+  fst (run_prog top top_next fuel sts (create_top m stdin args))
+  = fst (run_prog _ list_next fuel sts (all_outs m stdin args)).
+Proof.
+  intros m stdin args fuel sts.
+  pose proof (run_prog_sim top top_next top_abs top_ok fuel sts (create_top m stdin args)) as S. unfold sim in S.
+  rewrite create_top_all in S. now rewrite S.
+Qed.
+
+(* the consumers on an error-free list: limit(k; inputs) takes the first k, [inputs] the rest *)
+Lemma take_list : forall brk k vs acc, (brk = false \/ (k <= List.length vs)%nat) ->
+  take_loop _ list_next brk k (map OVal vs) acc = (Some (acc ++ firstn k vs), map OVal (skipn k vs)).
+Proof.
+  induction k as [|k IH]; intros vs acc H; cbn [take_loop firstn skipn].
+  - now rewrite app_nil_r.
+  - destruct vs as [|v r]; cbn.
+    + destruct H as [->|H]; [now rewrite app_nil_r | cbn in H; lia].
+    + rewrite IH; [now rewrite <- app_assoc | destruct H; [now left | right; cbn in *; lia]].
+Qed.
+
+Lemma inputs_list : forall fuel vs acc, (List.length vs < fuel)%nat ->
+  inputs_loop _ list_next fuel (map OVal vs) acc = Some (Some (acc ++ vs), []).
+Proof.
+  induction fuel as [|f IH]; intros vs acc L; [lia|]. destruct vs as [|v r]; cbn.
+  - now rewrite app_nil_r.
+  - rewrite IH by (cbn in L; lia). now rewrite <- app_assoc.
+Qed.
+
+(* `[limit(k; inputs)], [inputs]` under -n on an error-free input: the first k values and then all the
+   others — nothing lost, nothing twice, across files and stdin *)
+Lemma take_then_rest_lemma : forall m stdin args vs k fuel,
+  all_outs m stdin args = map OVal vs -> (List.length vs < fuel)%nat ->
+  fst (run_prog top top_next fuel [StTake k; StRest] (create_top m stdin args))
+  = [OVal (varr (firstn k vs)); OVal (varr (skipn k vs))].
+Proof.
+  intros m stdin args vs k fuel E L. rewrite partial_consumption_lemma, E.
+  cbn [run_prog run_stage]. rewrite take_list by now left. cbn [option_map app fst snd].
+  rewrite inputs_list by (rewrite skipn_length; lia). reflexivity.
+Qed.
+
+(* `[limit(k; repeat(input))], [inputs]`: the same for k values available; "break" escapes when k exceeds them *)
+Lemma takerep_then_rest_lemma : forall m stdin args vs k fuel,
+  all_outs m stdin args = map OVal vs -> (List.length vs < fuel)%nat -> (k <= List.length vs)%nat ->
+  fst (run_prog top top_next fuel [StTakeRepeat k; StRest] (create_top m stdin args))
+  = [OVal (varr (firstn k vs)); OVal (varr (skipn k vs))].
+Proof.
+  intros m stdin args vs k fuel E L K. rewrite partial_consumption_lemma, E.
+  cbn [run_prog run_stage]. rewrite take_list by now right. cbn [option_map app fst snd].
+  rewrite inputs_list by (rewrite skipn_length; lia). reflexivity.
+Qed.
